@@ -17,6 +17,7 @@ package storage
 
 import (
 	"context"
+	"encoding/binary"
 	"errors"
 	"fmt"
 	"log/slog"
@@ -568,7 +569,7 @@ func (l *PartitionLog) Read(ctx context.Context, offset int64, maxBytes int32) (
 			if err != nil {
 				return nil, err
 			}
-			data = bytes
+			data = trimToBatch(bytes, offset, maxBytes)
 			rangeReadUsed = true
 		} else {
 			start := time.Now()
@@ -646,7 +647,7 @@ func (l *PartitionLog) startPrefetch(ctx context.Context, nextIndex int) {
 
 func (l *PartitionLog) sliceCachedSegment(seg segmentRange, entries []*IndexEntry, offset int64, maxBytes int32, data []byte) ([]byte, error) {
 	if len(entries) == 0 {
-		return sliceFullSegmentData(data, maxBytes), nil
+		return trimToBatch(sliceFullSegmentData(data, 0), offset, maxBytes), nil
 	}
 	start, end := l.computeSegmentRange(seg, entries, offset, maxBytes)
 	if start < 0 || end < start {
@@ -655,7 +656,35 @@ func (l *PartitionLog) sliceCachedSegment(seg segmentRange, entries []*IndexEntr
 	if end >= int64(len(data)) {
 		end = int64(len(data)) - 1
 	}
-	return append([]byte(nil), data[start:end+1]...), nil
+	return trimToBatch(append([]byte(nil), data[start:end+1]...), offset, maxBytes), nil
+}
+
+// trimToBatch drops the leading batches of data that end before offset, so the
+// result starts at the batch holding offset (the sparse index only gets a read
+// to the nearest preceding index entry), then applies the byte limit. data must
+// start at a batch boundary. If the batch headers cannot be followed, data is
+// returned from the last position that could be reached.
+func trimToBatch(data []byte, offset int64, maxBytes int32) []byte {
+	const frameHeaderLen = 12
+	pos := 0
+	for pos+recordBatchHeaderMinSize <= len(data) {
+		base := int64(binary.BigEndian.Uint64(data[pos : pos+8]))
+		batchLen := int(int32(binary.BigEndian.Uint32(data[pos+8 : pos+12])))
+		lastDelta := int32(binary.BigEndian.Uint32(data[pos+23 : pos+27]))
+		if base+int64(lastDelta) >= offset || batchLen <= 0 {
+			break
+		}
+		next := pos + frameHeaderLen + batchLen
+		if next <= pos || next >= len(data) {
+			break
+		}
+		pos = next
+	}
+	data = data[pos:]
+	if maxBytes > 0 && len(data) > int(maxBytes) {
+		data = data[:maxBytes]
+	}
+	return data
 }
 
 func sliceFullSegmentData(data []byte, maxBytes int32) []byte {
@@ -693,15 +722,22 @@ func (l *PartitionLog) computeSegmentRange(seg segmentRange, entries []*IndexEnt
 	if seg.size <= segmentFooterLen {
 		return -1, -1
 	}
-	entry := findIndexEntry(entries, offset)
-	start := int64(entry.Position)
+	idx := findIndexEntryIdx(entries, offset)
+	start := int64(entries[idx].Position)
 	endLimit := seg.size - segmentFooterLen
 	if endLimit <= start {
 		return -1, -1
 	}
 	end := endLimit - 1
 	if maxBytes > 0 {
-		maxEnd := start + int64(maxBytes) - 1
+		// The batch holding offset starts somewhere in [start, next index entry).
+		// Read far enough that maxBytes are available from that batch on;
+		// trimToBatch drops what precedes it.
+		from := endLimit
+		if idx+1 < len(entries) {
+			from = int64(entries[idx+1].Position)
+		}
+		maxEnd := from + int64(maxBytes) - 1
 		if maxEnd < end {
 			end = maxEnd
 		}
